@@ -556,3 +556,13 @@ PROPS["C16"]["manifest"]["text"] = PROPS["C16"]["manifest"]["text"].replace(
 PROPS["C16"]["manifest"]["note"] = PROPS["C16"]["manifest"]["note"].replace(
     "Dump of a written file is covered by the correspondence only.",
     "dump_overflow_loses_record proves what is lost beyond 4 GiB.")
+PROPS["C02"]["manifest"]["text"] += (
+    " Per-request context cache of the RocksDB reader (Model/CtxCache.lean): cache_transparent_repaired (for every store and "
+    "every sequence of exact and closest lookups through one context, incl. callers that rewrite their key buffer, the cached "
+    "results equal the uncached ones - the code after repair d678df2); for the code before it cache_transparent_false, "
+    "get_ignores_callers_buffer_false, the exact condition cache_transparent_iff and request_shape_transparent (the lookup "
+    "shape of one request never met the defect). Correspondence: op ctx drives real RDB.get / FindClosest through one "
+    "rdb.Context against the model and against fresh contexts.")
+PROPS["C02"]["manifest"]["note"] = PROPS["C02"]["manifest"]["note"].replace(
+    "per-request context cache and RocksDB iterators are covered by the correspondence only;",
+    "RocksDB iterators (SeekForPrev) and Get errors are trusted / not modelled;")
